@@ -750,6 +750,13 @@ func (cmd *Command) printDiagnostics(cs []*lint.Analyzer, diagnostics []diagnost
 			numIgnored++
 			continue
 		}
+		if diag.Severity == severityIgnored {
+			// -show-ignored only makes ignored problems visible; they still
+			// don't count towards the exit status.
+			numIgnored++
+			notIgnored = append(notIgnored, diag)
+			continue
+		}
 		if shouldExit[makeCaseFoldedString(diag.Category)] {
 			numErrors++
 		} else {
